@@ -22,7 +22,7 @@ theorem verify_spec {U : Tx → Prop} (hw : WF U) {mp : Pool} (hi : Inv U mp) {t
       simp only
       constructor
       · rw [hmp1]
-        refine ⟨rfl, rfl, rfl, rfl, rfl, rfl, rfl, ?_⟩
+        refine ⟨rfl, rfl, rfl, rfl, rfl, rfl, rfl, ?_, SameAux.refl _⟩
         rcases hcase with h | ⟨h1, h2⟩
         · exact Or.inl (upd_self_eq _ _ _ h)
         · exact Or.inr ⟨h1, by rw [h2]⟩
@@ -105,13 +105,6 @@ theorem filter_middle_ne (acc rest : List Tx) (itm : Tx) (hnd : ((acc ++ itm :: 
   have h3 : rest.filter (fun t => t.id != itm.id) = rest := filter_ne_id_of_not_mem _ _ h2.1
   simp [h1, h3]
 
-/-- the index updates of `RemoveStale` for a dropped transaction -/
-def dropEntry (mp : Pool) (itm : Tx) : Pool :=
-  { mp with vmap := upd mp.vmap itm.id none
-            oracleResp := match itm.oracle with
-              | some id => upd mp.oracleResp id none
-              | none => mp.oracleResp }
-
 /-- state of the `RemoveStale` loop: `acc` = kept so far, `rest` = still to be examined -/
 structure LoopInv (U : Tx → Prop) (acc rest : List Tx) (mp : Pool) : Prop where
   list : ListOk U (acc ++ rest)
@@ -169,7 +162,7 @@ theorem staleLoop_spec {U : Tx → Prop} (hw : WF U) (isOK : Tx → Bool) (feer 
           have hL : LoopInv U (acc ++ [itm]) rest
               { mp' with conflicts := addConflictEntries mp'.conflicts itm.id itm.conflicts
                          resent := if dueForResend mp'.resendThreshold feer.height (mp'.stamp itm.id)
-                           then mp'.resent ++ [itm.id] else mp'.resent } := by
+                           then mp'.resent ++ [(itm.id, mp'.data itm.id)] else mp'.resent } := by
             have heq : acc ++ [itm] ++ rest = acc ++ itm :: rest := by simp
             refine ⟨by rw [heq]; exact h.list, by rw [heq]; show VmapOk _ mp'.vmap; rw [c4]; exact h.vmap,
               by rw [heq]; show OrcOk _ mp'.oracleResp; rw [c6]; exact h.orc, ?_, c1 rfl, by show mp'.panicked = false; rw [c9]; exact h.noPanic⟩
@@ -230,63 +223,71 @@ theorem inv_removeStale {U : Tx → Prop} (hw : WF U) {mp : Pool} (hi : Inv U mp
 theorem tryAdd_aux (mp : Pool) (t : Tx) (feer : Feer) (b : Bool) :
     (tryAddSendersFee mp t feer b).1.stamp = mp.stamp ∧
     (tryAddSendersFee mp t feer b).1.resendThreshold = mp.resendThreshold ∧
-    (tryAddSendersFee mp t feer b).1.resent = mp.resent := by
+    (tryAddSendersFee mp t feer b).1.resent = mp.resent ∧
+    (tryAddSendersFee mp t feer b).1.data = mp.data := by
   unfold tryAddSendersFee
   simp only
   repeat' split
-  all_goals exact ⟨rfl, rfl, rfl⟩
+  all_goals exact ⟨rfl, rfl, rfl, rfl⟩
 
-/-- the resend log of the `RemoveStale` loop: exactly the kept items that are due, in list order -/
-theorem staleLoop_resent (isOK : Tx → Bool) (feer : Feer) (pc : Bool) (thr : Nat) (st : Nat → Nat) :
-    ∀ (rest : List Tx) (mp : Pool) (acc : List Tx), mp.resendThreshold = thr → mp.stamp = st →
-      mp.resent = (acc.filter (fun t => dueForResend thr feer.height (st t.id))).map (·.id) →
+/-- the resend log of the `RemoveStale` loop: exactly the kept items that are due, in list order,
+each with the data it was added with -/
+theorem staleLoop_resent (isOK : Tx → Bool) (feer : Feer) (pc : Bool) (thr : Nat) (st dt : Nat → Nat) :
+    ∀ (rest : List Tx) (mp : Pool) (acc : List Tx), mp.resendThreshold = thr → mp.stamp = st → mp.data = dt →
+      mp.resent = (acc.filter (fun t => dueForResend thr feer.height (st t.id))).map (fun t => (t.id, dt t.id)) →
       (staleLoop isOK feer pc rest mp acc).1.resent
-        = ((staleLoop isOK feer pc rest mp acc).2.filter (fun t => dueForResend thr feer.height (st t.id))).map (·.id) ∧
+        = ((staleLoop isOK feer pc rest mp acc).2.filter (fun t => dueForResend thr feer.height (st t.id))).map
+            (fun t => (t.id, dt t.id)) ∧
       (staleLoop isOK feer pc rest mp acc).1.resendThreshold = thr ∧
-      (staleLoop isOK feer pc rest mp acc).1.stamp = st := by
+      (staleLoop isOK feer pc rest mp acc).1.stamp = st ∧
+      (staleLoop isOK feer pc rest mp acc).1.data = dt := by
   intro rest
   induction rest with
-  | nil => intro mp acc h1 h2 h3; simp only [staleLoop]; exact ⟨h3, h1, h2⟩
+  | nil => intro mp acc h1 h2 h4 h3; simp only [staleLoop]; exact ⟨h3, h1, h2, h4⟩
   | cons itm rest ih =>
-    intro mp acc h1 h2 h3
+    intro mp acc h1 h2 h4 h3
     simp only [staleLoop]
     split
-    · obtain ⟨a1, a2, a3⟩ := tryAdd_aux mp itm feer true
+    · obtain ⟨a1, a2, a3, a4⟩ := tryAdd_aux mp itm feer true
       cases hres : tryAddSendersFee mp itm feer true with
       | mk mp' b =>
-        rw [hres] at a1 a2 a3
+        rw [hres] at a1 a2 a3 a4
         cases b with
         | true =>
           simp only
           apply ih
           · exact a2.trans h1
           · exact a1.trans h2
+          · exact a4.trans h4
           · show (if dueForResend mp'.resendThreshold feer.height (mp'.stamp itm.id) = true
-                then mp'.resent ++ [itm.id] else mp'.resent) = _
+                then mp'.resent ++ [(itm.id, mp'.data itm.id)] else mp'.resent) = _
             have e1 : mp'.resendThreshold = thr := a2.trans h1
             have e2 : mp'.stamp = st := a1.trans h2
             have e3 : mp'.resent = _ := a3.trans h3
-            rw [e1, e2, e3, List.filter_append, List.map_append]
+            have e4 : mp'.data = dt := a4.trans h4
+            rw [e1, e2, e3, e4, List.filter_append, List.map_append]
             by_cases hd : dueForResend thr feer.height (st itm.id) = true
             · simp [hd]
             · simp [hd]
         | false =>
           simp only
-          exact ih _ _ (a2.trans h1) (a1.trans h2) (a3.trans h3)
-    · exact ih _ _ h1 h2 h3
+          exact ih _ _ (a2.trans h1) (a1.trans h2) (a4.trans h4) (a3.trans h3)
+    · exact ih _ _ h1 h2 h4 h3
 
 /-- `RemoveStale` calls the resend callback exactly for the kept transactions whose age is
-`resendThreshold * 2^k` blocks, in list order (and for nothing when the threshold is 0). -/
+`resendThreshold * 2^k` blocks, in list order, with the item's data (and for nothing when the threshold is 0). -/
 theorem removeStale_resent (mp : Pool) (isOK : Tx → Bool) (feer : Feer) :
     (removeStale mp isOK feer).resent
       = ((removeStale mp isOK feer).txs.filter
-          (fun t => dueForResend mp.resendThreshold feer.height (mp.stamp t.id))).map (·.id) ∧
+          (fun t => dueForResend mp.resendThreshold feer.height (mp.stamp t.id))).map (fun t => (t.id, mp.data t.id)) ∧
     (removeStale mp isOK feer).resendThreshold = mp.resendThreshold ∧
-    (removeStale mp isOK feer).stamp = mp.stamp := by
+    (removeStale mp isOK feer).stamp = mp.stamp ∧
+    (removeStale mp isOK feer).data = mp.data := by
   unfold removeStale
   simp only
-  have hlp : (loadPolicy mp feer).1.resendThreshold = mp.resendThreshold ∧ (loadPolicy mp feer).1.stamp = mp.stamp := by
-    unfold loadPolicy; split <;> exact ⟨rfl, rfl⟩
-  exact staleLoop_resent isOK feer (loadPolicy mp feer).2 mp.resendThreshold mp.stamp _ _ [] hlp.1 hlp.2 rfl
+  have hlp : (loadPolicy mp feer).1.resendThreshold = mp.resendThreshold ∧ (loadPolicy mp feer).1.stamp = mp.stamp ∧
+      (loadPolicy mp feer).1.data = mp.data := by
+    unfold loadPolicy; split <;> exact ⟨rfl, rfl, rfl⟩
+  exact staleLoop_resent isOK feer (loadPolicy mp feer).2 mp.resendThreshold mp.stamp mp.data _ _ [] hlp.1 hlp.2.1 hlp.2.2 rfl
 
 end NeoModel.Mempool
